@@ -295,6 +295,29 @@ def fault_runs(flen, nops, step, tier, extra_paths):
     return runs
 
 
+BIG_FILE = 5000
+
+
+def fault_runs_big(flen, nops, tier):
+    """failure points for a file larger than the path writer's stdio buffer: the path writer and the default-buffer
+    cookie writer, byte offsets around every multiple of the buffer sizes and a coarse stride in between"""
+    stride = 509 if tier == "quick" else 97
+    offs = set(range(0, flen, stride)) | {flen - 1, flen - 8, 3, 4}
+    for b in range(4096, flen + 4096, 4096):
+        offs |= {b - 1, b, b + 1}
+    offs = sorted(o for o in offs if 0 <= o < flen)
+    runs = []
+    for sticky in (1, 0):
+        for k in offs:
+            runs.append(RunCfg("p", arm="b%d" % k, sticky=sticky))
+            if k % 2 == 0:
+                runs.append(RunCfg("c", "d", "b%d" % k, sticky))
+        for j in range(1, nops + 2):
+            runs.append(RunCfg("p", arm="o%d" % j, sticky=sticky))
+    runs.append(RunCfg("p", arm="c"))
+    return runs
+
+
 def abort_runs(ops, flen, extra_paths):
     ncalls = len(ops) - 2           # calls between Create and Close
     runs = []
@@ -474,6 +497,18 @@ def _run(chk, tier, replay, binary, fdir, extra_paths):
                     groups.append((ops, cfg[0], cfg[1], want_trunc, want_sink))
         for i in range(0, len(hs), max(1, len(hs) // 3)):
             chk.sample({"history": hs[i]})
+        # files larger than the stdio buffer of a path writer (st_blksize, 4096 here): only then do bytes reach the
+        # device before close, so only then can a path writer meet a failure that is over by the time it closes
+        # (one column, two row groups of > 4 KB each, so that the first row group is on the device before the second)
+        # REQUIRED INT32 (WideSchema(1)), 1100 rows per row group = 4.4 KB of PLAIN values per group
+        bigs = [h for h in wcommon.gen_histories(chk, [101], [1100], 3, 2, nullmode="beat", simulate=4, workers=4)
+                if sum(1 for o in h if o["op"] == "NewRowGroup") >= 1 and sum(o["n"] for o in h if o["op"] == "WriteBatch") >= 2200]
+        if tier != "quick":
+            bigs += [h for h in wcommon.long_histories(chk, tier)
+                     if len(h[0]["cols"]) == 1 and any(o["op"] == "NewRowGroup" for o in h)
+                     and sum(o["n"] for o in h if o["op"] == "WriteBatch") >= 2000][:4]
+        for ops in bigs[:1 if tier == "quick" else 6]:
+            groups.append((ops, 0, 1 << 20, False, True))
 
     t0 = tick(t0, "histories (%d groups)" % len(groups))
     # ---- phase 1: fault-free runs (reference files)
@@ -523,7 +558,9 @@ def _run(chk, tier, replay, binary, fdir, extra_paths):
         slot += 1
         gi = asc.pop() if slot % 6 == 0 else asc.pop(0)
         cost = int((10 if step == 1 else 1.3) * len(refs[gi][2])) + 200
-        if est + cost <= run_budget:
+        if len(refs[gi][2]) >= BIG_FILE:          # planned with their own (coarse) failure points, outside the budget
+            sink_ok.add(gi)
+        elif est + cost <= run_budget:
             sink_ok.add(gi)
             est += cost
     for gi in order:
@@ -546,7 +583,8 @@ def _run(chk, tier, replay, binary, fdir, extra_paths):
                 lines.append("%s X:@DIR@:%d:%d:64:%s" % (pid, lo, min(len(fb), lo + width), hexs(fb)))
             ncuts += len(fb)
         if want_sink:
-            rcs = fault_runs(len(fb), nops, step, tier, extra_paths) + abort_runs(ops, len(fb), extra_paths)
+            rcs = (fault_runs_big(len(fb), nops, tier) if len(fb) >= BIG_FILE
+                   else fault_runs(len(fb), nops, step, tier, extra_paths) + abort_runs(ops, len(fb), extra_paths))
             for ri, rc in enumerate(rcs, start=1):
                 rid = "g%dr%d" % (gi, ri)
                 if rc.path == extra_paths[0] and rc.end == "A":       # abort removes the name: one symlink per run
